@@ -2,3 +2,5 @@ import DDProofs.Sem
 import DDProofs.Canon
 import DDProofs.Ext
 import DDProofs.Inv
+import DDProofs.DddmpLists
+import DDProofs.DddmpProofs
